@@ -135,13 +135,49 @@ func r43PixelFormulaShape(c *core.Ctx) {
 	// insertCoord: the address handed to getQuadrantExtentAndCentroid for level l is quo(deepest address, 2^(deepest - l))
 	{
 		iinfo := ic.Pkg.TypesInfo
+		isig := ic.Obj.Type().(*types.Signature)
+		// the per-level work may sit in a helper insertCoord calls with its two addresses passed on
+		host := ic
+		px, py := isig.Params().At(0).Name(), isig.Params().At(1).Name()
+		if len(core.CallsIn(iinfo, ic.Decl, "pointindex.PointIndex.getQuadrantExtentAndCentroid")) == 0 {
+			ast.Inspect(ic.Decl.Body, func(n ast.Node) bool {
+				call, ok := n.(*ast.CallExpr)
+				if !ok || host != ic {
+					return true
+				}
+				cal := core.Callee(iinfo, call)
+				if cal == nil {
+					return true
+				}
+				h := c.P.ByObj[cal.Origin()]
+				if h == nil || h.Pkg != ic.Pkg || h.Decl.Body == nil || len(core.CallsIn(iinfo, h.Decl, "pointindex.PointIndex.getQuadrantExtentAndCentroid")) == 0 {
+					return true
+				}
+				hs := h.Obj.Type().(*types.Signature)
+				hx, hy := "", ""
+				for i, a := range call.Args {
+					if i >= hs.Params().Len() {
+						break
+					}
+					switch core.ObjOf(iinfo, a) {
+					case types.Object(isig.Params().At(0)):
+						hx = hs.Params().At(i).Name()
+					case types.Object(isig.Params().At(1)):
+						hy = hs.Params().At(i).Name()
+					}
+				}
+				if hx != "" && hy != "" {
+					host, px, py = h, hx, hy
+				}
+				return true
+			})
+		}
 		ie := newSymEnv(c.P, iinfo)
-		ie.run(ic.Decl.Body.List)
+		ie.run(host.Decl.Body.List)
 		okAddr := false
 		detail := "no call of getQuadrantExtentAndCentroid"
-		ri := recvName(ic)
-		isig := ic.Obj.Type().(*types.Signature)
-		for _, call := range core.CallsIn(iinfo, ic.Decl, "pointindex.PointIndex.getQuadrantExtentAndCentroid") {
+		ri := recvName(host)
+		for _, call := range core.CallsIn(iinfo, host.Decl, "pointindex.PointIndex.getQuadrantExtentAndCentroid") {
 			if len(call.Args) != 4 {
 				continue
 			}
@@ -153,8 +189,8 @@ func r43PixelFormulaShape(c *core.Ctx) {
 				continue
 			}
 			pw := pSym("2^(" + pAdd(pSym(ri+".deepestLevel"), lv, -1).String() + ")")
-			wantX := pSym("quo(" + pSym(isig.Params().At(0).Name()).String() + "," + pw.String() + ")")
-			wantY := pSym("quo(" + pSym(isig.Params().At(1).Name()).String() + "," + pw.String() + ")")
+			wantX := pSym("quo(" + pSym(px).String() + "," + pw.String() + ")")
+			wantY := pSym("quo(" + pSym(py).String() + "," + pw.String() + ")")
 			okAddr = pEq(xv, wantX) && pEq(yv, wantY) && canon(call.Args[3]) == ri+".intExtent"
 			detail = fmt.Sprintf("x = %s, y = %s, level = %s", xv.String(), yv.String(), lv.String())
 		}
